@@ -14,6 +14,8 @@ def zs(v):
 def str_to_int(eng, v, node):
     """int(s) for a symbolic string: defined for optional sign + digits (no whitespace handling:
     assumption recorded by the contract that uses it)."""
+    if getattr(v, 'src', None) is not None:
+        return Sym(v.src, INT)          # int(str(i)) == i
     s = v.z
     digits = z3.InRe(s, z3.Plus(z3.Range('0', '9')))
     if not eng.branch(digits):
@@ -79,11 +81,32 @@ def str_method(eng, base, attr, node):
                     raise PyRaise('TypeError', 'sequence item: expected str instance', node=node)
                 res = zs(x) if res is None else z3.Concat(res, s, zs(x))
             return concretize(Sym(res, STR)) if res is not None else ''
+        if attr == 'split' and len(args) >= 1 and not is_sym(args[0]):
+            return SplitParts(base, args[0])
         if attr == 'format':
             raise Unsupported('str.format on symbolic')
         raise Unsupported('str.%s on symbolic string' % attr)
 
     return BoundMethod(attr, native)
+
+
+NSPLIT = z3.Function('nsplit', z3.StringSort(), z3.StringSort(), z3.IntSort())
+
+
+class SplitParts:
+    """s.split(sep) of a symbolic string, observed only through its length (= occurrences of sep + 1, an
+    uninterpreted function of (s, sep) that specifications can name with nsplit(s, sep))."""
+
+    def __init__(self, s, sep):
+        self.s, self.sep = s, sep
+
+    def vc_len(self, eng):
+        n = NSPLIT(zs(self.s), zs(self.sep))
+        eng.assume(n >= 1)
+        return Sym(n, INT)
+
+    def vc_iter(self, eng):
+        raise Unsupported('iteration over the parts of a symbolic string split')
 
 
 def _replace_all(eng, s, args):
